@@ -25,7 +25,7 @@ from vlib.core import enc_bool, enc_list, ToolFailure
 
 # ---- named tolerances (DESIGN section 8) -------------------------------------------------------------------
 TOL_RUN = 1e-9        # model (Float, from the captured solver output) vs implementation: |x-y| <= TOL_RUN*(1+|x|)
-TOL_SPEC = 1e-9       # residual equations / closed forms evaluated on the public outputs (scaled inside the spec)
+TOL_SPEC = 1e-8       # residual equations / closed forms evaluated on the public outputs (scaled inside the spec)
 TOL_CONTRACT = 1e-9   # residual equations of the captured solver output
 COND_MIN = 1e-3       # predict-reproduces-embedding is compared only if sigma_min > COND_MIN * sigma_max and every
 #                       un-normalised embedding row has norm > COND_MIN (the hypothesis sigma != 0 of the theorem)
